@@ -51,7 +51,7 @@ CHECKS = {
             {"pkg": "pkg/gosqlx", "harness": "VxC01_Sizes", "args": {"replace": "context.WithTimeout=VxTimeoutCtx"}, "expect_asserts": ["C01.size_returns"], "generic": ["panic", "unwind"], "budget_is_violation": True}],
     },
     "C02": {
-        "bounds": {"quick": "byte limit: every input length 0..32 MiB (symbolic 32-bit length, content never read) for Tokenize and TokenizeContext; token limit: source instantiated at MaxTokens=2, all inputs <= 5 bytes over {a space ,}; depth limit: every current depth 0..200 for parseExpression and parseCommonTableExpr; recursion accounting: every *Parser method re-entered while active must see a larger depth, for all <= 3-token continuations (150-row statement/expression lexeme table) of 5 contexts (statement start, SELECT, SELECT * FROM, SELECT * FROM t JOIN, SELECT a FROM t WHERE) and every start depth 0..89",
+        "bounds": {"quick": "byte limit: every input length 0..32 MiB (symbolic 32-bit length, content never read) for Tokenize and TokenizeContext; token limit: source instantiated at MaxTokens=2, all inputs <= 5 bytes over {a space ,}; depth limit: every current depth 0..200 for parseExpression and parseCommonTableExpr; recursion accounting: every *Parser method re-entered while active must see a larger depth, for all <= 3-token continuations (150-row statement/expression lexeme table) of 5 contexts (statement start, SELECT, SELECT * FROM, SELECT * FROM t JOIN, SELECT a FROM t WHERE) and every start depth 0..89; every recursion cycle enforces the limit: from start depths 97..102 a *Parser method is re-entered while active only if the active activation was entered below 100, same contexts and continuations",
                    "thorough": "same, token limit <= 7 bytes, recursion accounting <= 4 tokens"},
         "outside": "cycles whose shortest re-entry needs more tokens than the bound from these contexts; goroutine stack bytes (activations are counted, not bytes); the real constant MaxTokens=1,000,000 is covered through the instantiation argument (the constant occurs only in the comparison with len(tokens) and in the error builder)",
         "assumptions": ["documented limits: 10 MiB input, 1,000,000 tokens, nesting depth 100", "p.depth is the accounting measure"],
@@ -65,7 +65,9 @@ CHECKS = {
             {"pkg": PAR, "harness": "VxC02_DepthLimit", "expect_asserts": ["C02.depth_reject", "C02.depth_accept"]},
             {"pkg": PAR, "harness": "VxC02_DepthLimitCTE", "expect_asserts": ["C02.cte_depth_reject", "C02.cte_depth_accept"]},
         ] + parruns(["VxC02_Reentry_Start3", "VxC02_Reentry_Select3", "VxC02_Reentry_From3", "VxC02_Reentry_Join3", "VxC02_Reentry_Where3"],
-                    ["VxC02_Reentry_Start4", "VxC02_Reentry_Select4", "VxC02_Reentry_From4", "VxC02_Reentry_Join4", "VxC02_Reentry_Where4"], ["C02.reentry_accounted"], extra={"engine_only_asserts": ["C02.reentry_accounted"]}),
+                    ["VxC02_Reentry_Start4", "VxC02_Reentry_Select4", "VxC02_Reentry_From4", "VxC02_Reentry_Join4", "VxC02_Reentry_Where4"], ["C02.reentry_accounted"], extra={"engine_only_asserts": ["C02.reentry_accounted"]})
+          + parruns(["VxC02_Limited_Start3", "VxC02_Limited_Select3", "VxC02_Limited_From3", "VxC02_Limited_Join3", "VxC02_Limited_Where3"],
+                    ["VxC02_Limited_Start4", "VxC02_Limited_Select4", "VxC02_Limited_From4", "VxC02_Limited_Join4", "VxC02_Limited_Where4"], ["C02.reentry_limited"], extra={"engine_only_asserts": ["C02.reentry_accounted", "C02.reentry_limited"]}),
     },
     "C03": {
         "bounds": {"quick": "WHERE-expressions of <= 4 symbolic tokens over a 30-row lexeme table (identifiers, literals, every operator of the documented ladder, parentheses, NOT/IS/NULL/IN/BETWEEN/LIKE/AND/OR) and <= 5 tokens over a 16-row operator table; SELECT with every combination of DISTINCT/WHERE/GROUP BY/HAVING/ORDER BY [DESC]/LIMIT/OFFSET with symbolic names and numbers; 12 longer expression shapes (NOT ( a ) ? b, a ? ( b ? c ) ? d, unary minus, double NOT, ...) with every operator slot symbolic over 10 operators; HAVING with and without GROUP BY; chains of <= 2 set operators (UNION/EXCEPT/INTERSECT, ALL symbolic) over 3 selects; join chains of <= 2 joins, each of 9 spellings (JOIN, INNER, LEFT [OUTER], RIGHT [OUTER], FULL [OUTER], CROSS) with symbolic table, optional alias, ON or USING: kind, table, alias and condition per join as written; INSERT with 0-2 listed columns and 1-3 rows of symbolic numbers: every row keeps its own values; UPDATE with 1-3 assignments and DELETE, WHERE symbolic",
@@ -136,7 +138,7 @@ CHECKS = {
         ] + parruns(["VxSoup_Start2", "VxSoup_Select2", "VxSoup_From2", "VxSoup_Where2"], ["VxSoup_Start3", "VxSoup_Select3", "VxSoup_From3", "VxSoup_Where3"], ["C14.tree_visits"]),
     },
     "C15": {
-        "bounds": {"quick": "statements generated as parser tokens from (nesting context) x (clause features): 17 contexts (plain, derived table, derived table as first of several FROM items, derived table followed by a join, EXISTS, scalar comparison, IN sub-query, CTE, UNION ALL arm, EXCEPT, joined derived table, scalar select item, INSERT..SELECT, UPDATE/DELETE..WHERE EXISTS, UPDATE SET = (sub-query), WITH..INSERT) x 21 clause features of the inner SELECT (qualified column, function, column alias, nested functions, window PARTITION/ORDER, table alias, schema qualifier, second FROM item, JOIN ON, LEFT JOIN with aliases, JOIN USING, two joins (synthetic left name), CROSS JOIN, WHERE with string literal / function / IS NULL, GROUP BY..HAVING, ORDER BY column / function, DISTINCT..LIMIT); every pair of features on a plain SELECT; 7 DML shapes (INSERT VALUES / RETURNING / ON CONFLICT, UPDATE, DELETE, MERGE with UPDATE+INSERT, MERGE with DELETE); k = 0..59 levels of nested derived tables with a distinct (alternately schema-qualified) table, column and function per level. Every name position holds a finite-domain symbolic name from a two-name pool shared between tables and aliases (columns: {ca, ta}); the solver decides which positions coincide",
+        "bounds": {"quick": "statements generated as parser tokens from (nesting context) x (clause features): 17 contexts (plain, derived table, derived table as first of several FROM items, derived table followed by a join, EXISTS, scalar comparison, IN sub-query, CTE, UNION ALL arm, EXCEPT, joined derived table, scalar select item, INSERT..SELECT, UPDATE/DELETE..WHERE EXISTS, UPDATE SET = (sub-query), WITH..INSERT) x 21 clause features of the inner SELECT (qualified column, function, column alias, nested functions, window PARTITION/ORDER, table alias, schema qualifier, second FROM item, JOIN ON, LEFT JOIN with aliases, JOIN USING, two joins (synthetic left name), CROSS JOIN, WHERE with string literal / function / IS NULL, GROUP BY..HAVING, ORDER BY column / function, DISTINCT..LIMIT); every pair of features on a plain SELECT; 7 DML shapes (INSERT VALUES / RETURNING / ON CONFLICT, UPDATE, DELETE, MERGE with UPDATE+INSERT, MERGE with DELETE); k = 0..59 levels of nested derived tables with a distinct (alternately schema-qualified) table, column and function per level. Every name position holds a finite-domain symbolic name from a two-name pool shared between tables and aliases (columns: {ca, ta}); the solver decides which positions coincide; plus, crossed with every feature in the single-SELECT pair harness only, three multi-reference features: aggregate with its own two-key ORDER BY, multi-branch CASE inside a join condition, multi-branch CASE whose first branch holds an EXISTS sub-query (one symbolic name each, the other references concrete and distinct)",
                    "thorough": "additionally every pair of nesting contexts (17 x 12) around a plain SELECT"},
         "outside": "layout independence (the harness starts from tokens; whitespace/comment insensitivity of the token stream is the tokenizer's, C04/C05); constructs the package documents as limited (CASE, CAST, BETWEEN, recursive CTEs); TRUNCATE/DDL targets; MERGE with a sub-query source (rejected by the parser); pools larger than two names; three or more features at once",
         "assumptions": ["the plain ExtractTables variant may report a schema-qualified table either as written (sa.ta) or by its last part; the qualified variant must preserve the qualifier", "a CTE's defining name is not a table position; a FROM item naming it is"],
@@ -182,8 +184,8 @@ CHECKS = {
         ],
     },
     "C17": {
-        "bounds": {"quick": "L001 trailing whitespace: all texts <= 4 bytes over {space tab \\n \\r a ' -}; L002 mixed indentation: <= 4 over {space tab \\n a '}; L003 blank lines: <= 5 over {\\n \\r space a '}; L005 redundant whitespace: <= 4 over {space a ' \\n - ,}; L007 keyword case (upper): <= 5 over {o r R space ' \"}; L008 comma placement (no auto-fix): <= 5 over {a , \\n space ' -}; the lint --auto-fix flow (lint once with the CLI's ten rules, then every fixable rule's Fix in order with that run's violations) on every text of <= 3 lines drawn from 8 line shapes (blank, clean, doubled spaces, lower-case keywords with comma issues, tab / mixed indentation, trailing blanks, comment and string literal with doubled spaces), optional final newline: tokens and comments preserved, no violation of a fixed rule left (L007 judged by its own harness), second pass changes nothing",
-                   "thorough": "L001 <= 5, L002 <= 6, L003 <= 7, L005 <= 5, L007 <= 6 (upper) and <= 5 (lower)"},
+        "bounds": {"quick": "L001 trailing whitespace: all texts <= 4 bytes over {space tab \\n \\r a ' -}; L002 mixed indentation: <= 4 over {space tab \\n a '}; L003 blank lines: <= 5 over {\\n \\r space a '}; L005 redundant whitespace: <= 4 over {space a ' \\n - ,} and every text of <= 4 slots from {a, one blank, two blanks, '--', \"--\", --, \\n, '} (literals and quoted identifiers containing a comment marker before a real comment); L007 keyword case (upper): <= 5 over {o r R space ' \"}; L008 comma placement (no auto-fix): <= 5 over {a , \\n space ' -}; the lint --auto-fix flow (lint once with the CLI's ten rules, then every fixable rule's Fix in order with that run's violations) on every text of <= 3 lines drawn from 8 line shapes (blank, clean, doubled spaces, lower-case keywords with comma issues, tab / mixed indentation, trailing blanks, comment and string literal with doubled spaces), optional final newline: tokens and comments preserved, no violation of a fixed rule left (L007 judged by its own harness), second pass changes nothing",
+                   "thorough": "L001 <= 5, L002 <= 6, L003 <= 7, L005 <= 5 bytes and <= 5 slots, L007 <= 6 (upper) and <= 5 (lower)"},
         "outside": "the language server's format action (lsp.formatSQL); the file write-back of lint --fix (C19); L004/L006/L009/L010 (no text rewrite); longer texts; the long-line rule",
         "assumptions": ["'same meaning' = same (kind, value) token sequence from the real tokenizer, keyword values compared case-insensitively, comment texts compared modulo trailing blanks; texts that do not tokenize are outside the claim"],
         "runs": [
@@ -193,6 +195,8 @@ CHECKS = {
             {"pkg": "pkg/linter/rules/whitespace", "harness": "VxC17_L002_4", "tiers": ["quick"]},
             {"pkg": "pkg/linter/rules/whitespace", "harness": "VxC17_L003_5", "tiers": ["quick"]},
             {"pkg": "pkg/linter/rules/whitespace", "harness": "VxC17_L005_4", "tiers": ["quick"]},
+            {"pkg": "pkg/linter/rules/whitespace", "harness": "VxC17_L005_Words4", "tiers": ["quick"], "expect_asserts": ["C17.L005.same_comment", "C17.L005.idempotent"]},
+            {"pkg": "pkg/linter/rules/whitespace", "harness": "VxC17_L005_Words5", "tiers": ["thorough"], "expect_asserts": ["C17.L005.same_comment", "C17.L005.idempotent"], "thorough": {"timeout": 7200}},
             {"pkg": "pkg/linter/rules/keywords", "harness": "VxC17_L007_Upper5", "tiers": ["quick"], "expect_asserts": ["C17.L007.same_value", "C17.L007.idempotent", "C17.L007.fixed_is_clean"]},
             {"pkg": "pkg/linter/rules/style", "harness": "VxC17_L008_Trailing5", "tiers": ["quick"]},
             {"pkg": "pkg/linter/rules/whitespace", "harness": "VxC17_L001_5", "tiers": ["thorough"]},
@@ -255,7 +259,7 @@ CHECKS = {
         "bounds": {"quick": "every failing path of the C01 runs (same bounds, including every truncation of the 47-statement corpus): tokenizer errors and low-level parser errors; reproducibility: the same <= 2-token input gives the same code, message and location before and after an unrelated position-tracking parse of another input; a reused tokenizer instance reports the same code, message and location as a fresh one (inputs <= 3 bytes over the failing-literal alphabet after 5 earlier texts)", "thorough": "same as C01 thorough"},
         "outside": "wording of messages and hints; errors of the gosqlx wrappers (checked by C07 harness); reproducibility across Go map iteration order and across parser instance histories (the latter is C08's independence claim)",
         "assumptions": ["documented code families: E1xxx tokenizer, E2xxx parser"],
-        "runs": tokruns(["C13.tok_structured", "C13.tok_family"], ["VxC04_All2", "VxC04_Lex3"], ["VxC04_All3", "VxC04_Lex4"]) + parruns(["VxSoup_Start2", "VxSoup_Select2", "VxSoup_From2", "VxSoup_Where2", "VxSoup_Cut0"], ["VxSoup_Cut1", "VxSoup_Start3", "VxSoup_Select3", "VxSoup_From3", "VxSoup_Where3"], ["C13.structured", "C13.family"]) + [
+        "runs": tokruns(["C13.tok_structured", "C13.tok_family"], ["VxC04_All2", "VxC04_Lex3"], ["VxC04_All3", "VxC04_Lex4"]) + tokruns(["C13.tok_structured", "C13.tok_error_line"], ["VxC13_WordsErr2"], ["VxC13_WordsErr3"]) + parruns(["VxSoup_Start2", "VxSoup_Select2", "VxSoup_From2", "VxSoup_Where2", "VxSoup_Cut0"], ["VxSoup_Cut1", "VxSoup_Start3", "VxSoup_Select3", "VxSoup_From3", "VxSoup_Where3"], ["C13.structured", "C13.family"]) + [
             {"pkg": TOK, "harness": "VxC08_TokReuse3", "tiers": ["quick"], "expect_asserts": ["C13.tok_reproducible", "C13.tok_same_location"]},
             {"pkg": TOK, "harness": "VxC08_TokReuse4", "tiers": ["thorough"], "expect_asserts": ["C13.tok_reproducible", "C13.tok_same_location"]},
             {"pkg": PAR, "harness": "VxC13_Repeat", "args": {"max-steps": 400000}, "expect_asserts": ["C13.repeat_same_error"], "budget_judged_by": "C01"}],
